@@ -1,4 +1,4 @@
-import NA.Proofs.C04Plan
+import NA.Proofs.C04Keys
 import NA.Model.NsxAccept
 /-!
 Helper lemmas for C04, level 5: from the decidable side conditions (`accepted`) to the
@@ -45,7 +45,7 @@ theorem lookup_reverse {β : Type} (l : List (String × β)) (hn : (l.map Prod.f
 
 /-! ### Groups after `sortGroups` and `genUniqGroups` -/
 
-theorem sortAddrs_perm (l : List String) : (sortAddrs l).Perm l := List.mergeSort_perm _ _
+theorem sortAddrs_perm (l : List String) : (sortAddrs l).Perm l := isort_perm _ _
 
 theorem gids_sortGroups (gs : List Group) : gids (sortGroups gs) = gids gs := by
   simp [gids, sortGroups, List.map_map, Function.comp]
@@ -373,5 +373,804 @@ theorem ctxFacts_of {diff : Diff} {S : Store} {T : Config} {ctx : Ctx} (hS : Sto
       obtain ⟨g0, hg0, e⟩ := List.mem_map.mp hk
       obtain ⟨v, hv⟩ := bpairs_total hsame hg0
       exact ⟨v, (hmem k v).mpr (e ▸ hv)⟩
+
+
+/-! ### Hypotheses of the loops -/
+
+theorem ginv_init {ctx : Ctx} {G0 : List Group} (hc : CtxOK ctx G0) : GInv ctx G0 G0 {} :=
+  { nodup := hc.g0_nodup, unneeded := fun _ _ _ => rfl, others := fun _ _ _ => rfl,
+    nod := fun k n h => by simp at h, inj := fun k1 k2 n h => by simp at h,
+    needed_a := fun n h => by simp at h, needed_owned := fun n h => by simp at h,
+    ids := fun id h => Or.inl h, grow := fun id h => h }
+
+theorem findGroupLast_none {gs : List Group} {k : String} : findGroupLast gs k = none ↔ k ∉ gids gs := by
+  unfold findGroupLast
+  rw [findGroup_none]
+  simp [gids]
+
+theorem gmb_some {ctx : Ctx} {p : String} {gb : Group} (h : ctx.gmb p = some gb) :
+    ∃ k, groupRef p = some k ∧ ctx.bmap.lookup k = some gb := by
+  unfold Ctx.gmb at h
+  cases hr : groupRef p with
+  | none => simp [hr] at h
+  | some k => exact ⟨k, rfl, by simpa [hr] using h⟩
+
+theorem aext_ep {diff : Diff} {S : Store} {T : Config} {ctx : Ctx} (hcf : CtxFacts diff S T ctx) {p : String}
+    (hep : epOk S p = true) (hga : ctx.gma p = none) : ctx.gmb p = none := by
+  cases hb : ctx.gmb p with
+  | none => rfl
+  | some gb =>
+    exfalso
+    obtain ⟨k, hk, hl⟩ := gmb_some hb
+    obtain ⟨_, _, _, _, _, hmk⟩ := hcf.b_of k gb hl
+    unfold epOk at hep
+    rw [hk] at hep
+    have hin : k ∈ gids S.groups := hasGroup_iff.mp hep
+    unfold Ctx.gma at hga
+    rw [hk] at hga
+    simp only at hga
+    rw [findGroupLast_none, hcf.a_eq, gids_sortGroups] at hga
+    exact hga (gids_filter_managed.mpr ⟨hin, hmk⟩)
+
+theorem refsOk_parts {S : Store} {r : Rule} (h : refsOk S r = true) :
+    epOk S r.src = true ∧ epOk S r.dst = true ∧ svcOk S r.service = true := by
+  unfold refsOk at h
+  simp only [Bool.and_eq_true] at h
+  exact ⟨h.1.1, h.1.2, h.2⟩
+
+theorem brefs_of {diff : Diff} {S S1 : Store} {T : Config} {ctx : Ctx} (hcf : CtxFacts diff S T ctx)
+    (hT : TargetFacts T) (hext : extRefsOK S T = true) (hg : S1.groups = S.groups)
+    (hs1 : ∀ id, hasService S id = true → hasService S1 id = true)
+    (hs2 : ∀ id ∈ sids T.services, hasService S1 id = true)
+    {pb : Policy} (hpb : pb ∈ T.policies) {rb : Rule} (hrb : rb ∈ pb.rules) : BRefs ctx S1 rb := by
+  obtain ⟨d1, d2, d3⟩ := refsDefined_ep ((hT.rules pb hpb).2 rb hrb)
+  obtain ⟨e1, e2, e3⟩ := extRefs_ep hext hpb hrb
+  have hep : ∀ p, (∀ x, groupRef p = some x → managed x = true → x ∈ gids T.groups) →
+      (∀ x, groupRef p = some x → managed x = false → hasGroup S x = true) →
+      ctx.gmb p = none → epOk S1 p = true := by
+    intro p hd he hn
+    unfold epOk
+    cases hr : groupRef p with
+    | none => rfl
+    | some x =>
+      simp only
+      cases hm : managed x with
+      | true =>
+        exfalso
+        obtain ⟨gb, hgb⟩ := hcf.b_dom x (hd x hr hm)
+        unfold Ctx.gmb at hn
+        rw [hr] at hn
+        simp only at hn
+        rw [hgb] at hn; cases hn
+      | false =>
+        have := he x hr hm
+        unfold hasGroup at this ⊢
+        rw [hg]; exact this
+  refine ⟨?_, hep _ d1 e1, hep _ d2 e2⟩
+  unfold svcOk
+  cases hr : serviceRef rb.service with
+  | none => rfl
+  | some x =>
+    simp only
+    cases hm : managed x with
+    | true => exact hs2 x (d3 x hr hm)
+    | false => exact hs1 x (e3 x hr hm)
+
+theorem overB_abort (ctx : Ctx) (A : Config) : ∀ (ps : List Policy) (st : PSt), (overB ctx A ps st).1.abort = st.abort := by
+  have hadapt : ∀ (rules : List Rule) (st : PSt), (adaptRules ctx st rules).1.abort = st.abort := by
+    intro rules
+    induction rules with
+    | nil => intro st; rfl
+    | cons r rest ih =>
+      intro st
+      simp only [adaptRules]
+      rw [ih, adaptGroup_abort, adaptGroup_abort]
+  intro ps
+  induction ps with
+  | nil => intro st; rfl
+  | cons p rest ih =>
+    intro st
+    unfold overB
+    by_cases h : A.policies.any (·.id == p.id) = true
+    · simp only [h, if_true]; exact ih st
+    · have h' : A.policies.any (·.id == p.id) = false := Bool.eq_false_iff.mpr h
+      simp only [h', Bool.false_eq_true, if_false]
+      rw [ih]
+      simp only [createPolicy]
+      exact hadapt _ _
+
+
+/-! ### The whole plan -/
+
+theorem plan_eq {diff : Diff} {A B : Config} {ctx : Ctx} (hmk : mkCtx diff A B = some ctx) :
+    plan diff A B =
+      { calls := (planServices A.services B.services).1 ++ (overA ctx B A.policies {}).2 ++
+          (overB ctx A B.policies (overA ctx B A.policies {}).1).2 ++
+          (A.services.filter (!(planServices A.services B.services).2.contains ·.id)).map (Call.deleteService ·.id) ++
+          (A.groups.filter (!(overB ctx A B.policies (overA ctx B A.policies {}).1).1.needed.contains ·.id)).map
+            (Call.deleteGroup ·.id)
+        abort := (overB ctx A B.policies (overA ctx B A.policies {}).1).1.abort
+        needed := (overB ctx A B.policies (overA ctx B A.policies {}).1).1.needed
+        nod := (overB ctx A B.policies (overA ctx B A.policies {}).1).1.nod } := by
+  simp [plan, hmk]
+
+theorem plan_abort_none_ctx {diff : Diff} {A B : Config} (h : (plan diff A B).abort = none) :
+    ∃ ctx, mkCtx diff A B = some ctx := by
+  cases hmk : mkCtx diff A B with
+  | some ctx => exact ⟨ctx, rfl⟩
+  | none => simp [plan, hmk] at h
+
+theorem findService_mem_nodup {ss : List Service} {s : Service} (hn : (sids ss).Nodup) (hs : s ∈ ss) :
+    findService ss s.id = some s := by
+  induction ss with
+  | nil => cases hs
+  | cons x rest ih =>
+    rw [findService_cons]
+    simp only [sids, List.map_cons, List.nodup_cons] at hn
+    rcases List.mem_cons.mp hs with h | h
+    · subst h; simp
+    · have hne : x.id ≠ s.id := fun he => hn.1 (he ▸ List.mem_map_of_mem (f := (·.id)) h)
+      rw [if_neg hne]
+      exact ih hn.2 h
+
+theorem findPolicy_mem_nodup {ps : List Policy} {p : Policy} (hn : (pids ps).Nodup) (hp : p ∈ ps) :
+    findPolicy ps p.id = some p := by
+  unfold findPolicy
+  induction ps with
+  | nil => cases hp
+  | cons x rest ih =>
+    simp only [List.find?_cons]
+    simp only [pids, List.map_cons, List.nodup_cons] at hn
+    rcases List.mem_cons.mp hp with h | h
+    · subst h; simp
+    · have hne : x.id ≠ p.id := fun he => hn.1 (he ▸ List.mem_map_of_mem (f := (·.id)) h)
+      have : (x.id == p.id) = false := by simpa using hne
+      simp only [this]
+      exact ih hn.2 h
+
+theorem findPolicy_some {ps : List Policy} {id : String} {p : Policy} (h : findPolicy ps id = some p) :
+    p ∈ ps ∧ p.id = id := by
+  unfold findPolicy at h
+  exact ⟨List.mem_of_find?_eq_some h, by simpa using List.find?_some h⟩
+
+theorem findService_reverse_none {ss : List Service} {id : String} : findService ss.reverse id = none ↔ id ∉ sids ss := by
+  rw [findService_none_iff]; simp [sids]
+
+/-- What is known after the service phase and the two policy loops. -/
+structure MidFacts (diff : Diff) (S : Store) (T : Config) (ctx : Ctx) (st2 : PSt) (S3 : Store) : Prop where
+  ginv : GInv ctx S.groups S3.groups st2
+  svc_target : ∀ id ∈ sids T.services,
+    (findService S3.services id).map (·.defn) = (findService T.services id).map (·.defn)
+  svc_old : ∀ id, hasService S id = true → hasService S3 id = true
+  svc_new : ∀ id, hasService S3 id = true → hasService S id = true ∨ id ∈ sids T.services
+  svc_frame : ∀ id, id ∉ sids T.services → findService S3.services id = findService S.services id
+  pol_nodup : (pids S3.policies).Nodup
+  pol_real : ∀ pb ∈ T.policies, Realised ctx st2.nod S3 pb.id pb.rules
+  pol_managed : ∀ id, hasPolicy S3 id = true → managed id = true → id ∈ pids T.policies
+  pol_frame : ∀ id, managed id = false → findPolicy S3.policies id = findPolicy S.policies id
+  needed_svc : ∀ x, x ∈ (planServices (load S).services T.services).2 ↔
+    x ∈ sids T.services ∧ (findService (load S).services.reverse x).isSome = true
+  keys : ∀ k n, st2.nod.lookup k = some n → TargetKey T k
+
+
+theorem pids_filter_managed {ps : List Policy} {id : String} :
+    id ∈ pids (ps.filter (managed ·.id)) ↔ id ∈ pids ps ∧ managed id = true := by
+  unfold pids
+  constructor
+  · intro h
+    obtain ⟨g, hg, e⟩ := List.mem_map.mp h
+    obtain ⟨h1, h2⟩ := List.mem_filter.mp hg
+    exact ⟨List.mem_map.mpr ⟨g, h1, e⟩, e ▸ h2⟩
+  · rintro ⟨h, hm⟩
+    obtain ⟨g, hg, e⟩ := List.mem_map.mp h
+    exact List.mem_map.mpr ⟨g, List.mem_filter.mpr ⟨hg, by rw [e]; exact hm⟩, e⟩
+
+theorem any_id_iff {ps : List Policy} {id : String} : ps.any (·.id == id) = true ↔ id ∈ pids ps := by
+  unfold pids
+  rw [List.any_eq_true]
+  constructor
+  · rintro ⟨p, hp, he⟩; exact List.mem_map.mpr ⟨p, hp, by simpa using he⟩
+  · intro h
+    obtain ⟨p, hp, he⟩ := List.mem_map.mp h
+    exact ⟨p, hp, by simpa using he⟩
+
+theorem eq_of_id_eq {ps : List Policy} (hn : (pids ps).Nodup) {p q : Policy} (hp : p ∈ ps) (hq : q ∈ ps)
+    (e : p.id = q.id) : p = q := by
+  have h1 := findPolicy_mem_nodup hn hp
+  have h2 := findPolicy_mem_nodup hn hq
+  rw [e] at h1
+  rw [h1] at h2
+  exact Option.some.inj h2
+
+/-- Service phase and both policy loops. -/
+theorem plan_mid {diff : Diff} (hdiff : ∀ n m eq, validScript n m eq (diff n m eq) = true)
+    {S : Store} {T : Config} {ctx : Ctx} (hS : StoreFacts S) (hT : TargetFacts T)
+    (hext : extRefsOK S T = true) (hmk : mkCtx diff (load S) T = some ctx)
+    (hab : (overB ctx (load S) T.policies (overA ctx T (load S).policies {}).1).1.abort = none) :
+    ∃ S3, run S ((planServices (load S).services T.services).1 ++ (overA ctx T (load S).policies {}).2 ++
+          (overB ctx (load S) T.policies (overA ctx T (load S).policies {}).1).2) = some S3 ∧
+      MidFacts diff S T ctx (overB ctx (load S) T.policies (overA ctx T (load S).policies {}).1).1 S3 := by
+  have hcf := ctxFacts_of (diff := diff) hS hT hmk
+  have hc := hcf.ok
+  have hdiff' : ∀ n m eq, validScript n m eq (ctx.diff n m eq) = true := by rw [hcf.diff_eq]; exact hdiff
+  have hloadS : (load S).services = S.services.filter (managed ·.id) := rfl
+  have hloadP : (load S).policies = S.policies.filter (managed ·.id) := rfl
+  -- 1. services
+  obtain ⟨S1, hrun1, hg1, hp1, hsmono, hsnew, hsframe, hsdef, hsneeded⟩ :=
+    planSvc_spec (load S).services T.services [] S
+      (by
+        intro sb hsb _ hnone
+        rw [Bool.eq_false_iff]
+        intro hhas
+        rw [findService_reverse_none, hloadS] at hnone
+        apply hnone
+        obtain ⟨s, hs, e⟩ := List.mem_map.mp (hasService_iff.mp hhas)
+        exact List.mem_map.mpr ⟨s, List.mem_filter.mpr ⟨hs, by rw [e]; exact hT.svc sb hsb⟩, e⟩)
+      (by
+        intro sb _ _ sa hsa
+        obtain ⟨hm, hid⟩ := findService_some hsa
+        have hm' : sa ∈ S.services := (List.mem_filter.mp (List.mem_reverse.mp hm)).1
+        rw [← hid, findService_mem_nodup hS.svc_nodup hm']; rfl)
+  have hrunSvc : run S (planServices (load S).services T.services).1 = some S1 := hrun1
+  have hle1 : GroupsLE S S1 := fun id h => by rw [hg1]; exact h
+  -- 2. device policies
+  have hpidsA : (pids (load S).policies).Nodup := by
+    rw [hloadP]; exact (List.Sublist.map _ List.filter_sublist).nodup hS.pol_nodup
+  have hginv1 : GInv ctx S.groups S1.groups {} := by rw [hg1]; exact ginv_init hc
+  have hAok : ∀ pa ∈ (load S).policies, APolOK ctx S1 pa := by
+    intro pa hpa
+    have hpaS : pa ∈ S.policies := (List.mem_filter.mp hpa).1
+    obtain ⟨hr1, hr2⟩ := hS.rules pa hpaS
+    refine ⟨pa, by rw [hp1]; exact findPolicy_mem_nodup hS.pol_nodup hpaS, rfl, hr1, ?_⟩
+    intro ra hra
+    have hrefs := hr2 ra hra
+    obtain ⟨e1, e2, _⟩ := refsOk_parts hrefs
+    exact ⟨refsOk_mono' hsmono hle1 hrefs, fun h => aext_ep hcf e1 h, fun h => aext_ep hcf e2 h⟩
+  have hsT : ∀ id ∈ sids T.services, hasService S1 id = true := by
+    intro id hid
+    have := hsdef id (by simp) hid
+    cases hf : findService S1.services id with
+    | none =>
+      rw [hf] at this
+      cases hf' : findService T.services id with
+      | none => exact absurd hid (findService_none_iff.mp hf')
+      | some t => rw [hf'] at this; cases this
+    | some s =>
+      obtain ⟨hm, he⟩ := findService_some hf
+      exact hasService_iff.mpr (he ▸ List.mem_map_of_mem (f := (·.id)) hm)
+  have hBok1 : ∀ pb ∈ T.policies, BPolOK ctx S1 pb := fun pb hpb =>
+    ⟨(hT.rules pb hpb).1, fun rb hrb => brefs_of hcf hT hext hg1 hsmono hsT hpb hrb⟩
+  have habA : (overA ctx T (load S).policies {}).1.abort = none := by
+    rw [overB_abort] at hab; exact hab
+  obtain ⟨S2, hrun2, hinv2, hmono2, hsv2, hle2, hframe2, hnonew2, hndp2, hres2⟩ :=
+    overA_spec hc hdiff' T (load S).policies S1 {} hpidsA hginv1 hAok hBok1 habA
+  -- 3. new policies
+  obtain ⟨S3, hrun3, hinv3, hmono3, hsv3, hle3, hframe3, hnonew3, hndp3, hres3⟩ :=
+    overB_spec hc (load S) T.policies S2 (overA ctx T (load S).policies {}).1 hT.pol_nodup hinv2
+      (fun pb hpb => (hBok1 pb hpb).mono hsv2 hle2)
+      (by
+        intro pb hpb hany
+        rw [Bool.eq_false_iff]
+        intro hhas
+        have h1 := hnonew2 pb.id hhas
+        rw [hasPolicy_mem, hp1] at h1
+        have : pb.id ∈ pids (load S).policies := by
+          rw [hloadP]; exact pids_filter_managed.mpr ⟨h1, hT.pol_managed pb hpb⟩
+        rw [← any_id_iff, hany] at this
+        cases this)
+  refine ⟨S3, ?_, ?_⟩
+  · rw [List.append_assoc, run_append hrunSvc, run_append hrun2]; exact hrun3
+  · have hsvc3 : S3.services = S1.services := hsv3.trans hsv2
+    have hhas3 : ∀ id, hasService S3 id = hasService S1 id := fun id => by unfold hasService; rw [hsvc3]
+    refine { ginv := hinv3, svc_target := ?_, svc_old := ?_, svc_new := ?_, svc_frame := ?_, pol_nodup := ?_,
+             pol_real := ?_, pol_managed := ?_, pol_frame := ?_, needed_svc := ?_, keys := ?_ }
+    · intro id hid; rw [hsvc3]; exact hsdef id (by simp) hid
+    · intro id h; rw [hhas3]; exact hsmono id h
+    · intro id h; rw [hhas3] at h; exact hsnew id h
+    · intro id hid; rw [hsvc3]; exact hsframe id (Or.inr hid)
+    · exact hndp3 (hndp2 (by rw [hp1]; exact hS.pol_nodup))
+    · intro pb hpb
+      by_cases hin : pb.id ∈ pids (load S).policies
+      · obtain ⟨pa, hpa, e⟩ := List.mem_map.mp hin
+        have h2 := hres2 pa hpa
+        cases hfl : findPolicyLast T.policies pa.id with
+        | none =>
+          exfalso
+          unfold findPolicyLast at hfl
+          rw [findPolicy, List.find?_eq_none] at hfl
+          exact hfl pb (List.mem_reverse.mpr hpb) (by simpa using e.symm)
+        | some pb' =>
+          rw [hfl] at h2
+          simp only at h2
+          obtain ⟨hm', hid'⟩ := findPolicyLast_mem hfl
+          have : pb' = pb := eq_of_id_eq hT.pol_nodup hm' hpb (by rw [hid']; exact e)
+          subst this
+          have e' : pa.id = pb'.id := e
+          rw [e'] at h2
+          exact h2.transport hmono3 (hframe3 pb'.id (Or.inr (any_id_iff.mpr hin)))
+      · exact hres3 pb hpb (Bool.eq_false_iff.mpr fun h => hin (any_id_iff.mp h))
+    · intro id hhas hm
+      rcases hnonew3 id hhas with h | h
+      · have h1 := hnonew2 id h
+        rw [hasPolicy_mem, hp1] at h1
+        have hinA : id ∈ pids (load S).policies := by rw [hloadP]; exact pids_filter_managed.mpr ⟨h1, hm⟩
+        obtain ⟨pa, hpa, e⟩ := List.mem_map.mp hinA
+        have h2 := hres2 pa hpa
+        cases hfl : findPolicyLast T.policies pa.id with
+        | none =>
+          rw [hfl] at h2
+          simp only at h2
+          obtain ⟨p, hp⟩ := hasPolicy_iff.mp h
+          have e' : pa.id = id := e
+          rw [e'] at h2
+          rw [h2] at hp; cases hp
+        | some pb' =>
+          obtain ⟨hm', hid'⟩ := findPolicyLast_mem hfl
+          have e' : pa.id = id := e
+          exact e' ▸ hid' ▸ List.mem_map_of_mem (f := (·.id)) hm'
+      · exact h
+    · intro id hm
+      have h1 : id ∉ pids T.policies := by
+        intro h
+        obtain ⟨pb, hpb, e⟩ := List.mem_map.mp h
+        have := hT.pol_managed pb hpb
+        have e' : pb.id = id := e
+        rw [e', hm] at this; cases this
+      have h2 : id ∉ pids (load S).policies := by
+        intro h
+        rw [hloadP] at h
+        have := (pids_filter_managed.mp h).2
+        rw [hm] at this; cases this
+      rw [hframe3 id (Or.inl h1), hframe2 id h2, hp1]
+    · intro x
+      have := hsneeded x
+      simpa [planServices] using this
+    · intro k n h
+      have hk := ((overA_keys ctx T (load S).policies {}).trans
+        (overB_keys ctx (load S) T T.policies _ (fun _ hp => hp))) k n h
+      rcases hk with h0 | h0
+      · simp at h0
+      · exact h0
+
+
+/-! ### From realisation to the specification's equivalence -/
+
+theorem Forall2_perm_right {α β : Type} {R : α → β → Prop} {l : List α} {m m' : List β}
+    (h : Forall2 R l m) (hp : m.Perm m') : ∃ l', l.Perm l' ∧ Forall2 R l' m' := by
+  induction hp generalizing l with
+  | nil => exact ⟨l, List.Perm.refl _, h⟩
+  | cons x _ ih =>
+    cases h with
+    | cons hab hrest =>
+      obtain ⟨l', hl', hf⟩ := ih hrest
+      exact ⟨_ :: l', List.Perm.cons _ hl', .cons hab hf⟩
+  | swap x y _ =>
+    cases h with
+    | cons hab hrest =>
+      cases hrest with
+      | cons hab2 hrest2 => exact ⟨_, List.Perm.swap _ _ _, .cons hab2 (.cons hab hrest2)⟩
+  | trans _ _ ih1 ih2 =>
+    obtain ⟨l1, hl1, hf1⟩ := ih1 h
+    obtain ⟨l2, hl2, hf2⟩ := ih2 hf1
+    exact ⟨l2, hl1.trans hl2, hf2⟩
+
+theorem Forall2.exists_left {α β : Type} {R : α → β → Prop} {l : List α} {m : List β} (h : Forall2 R l m)
+    {y : β} (hy : y ∈ m) : ∃ x ∈ l, R x y := by
+  induction h with
+  | nil => cases hy
+  | cons hab _ ih =>
+    rcases List.mem_cons.mp hy with e | e
+    · subst e; exact ⟨_, List.mem_cons_self, hab⟩
+    · obtain ⟨x, hx, hr⟩ := ih e
+      exact ⟨x, List.mem_cons_of_mem _ hx, hr⟩
+
+theorem Forall2.comp {α β γ : Type} {R : α → β → Prop} {Q : β → γ → Prop} {P : α → γ → Prop}
+    (hpq : ∀ a b c, R a b → Q b c → P a c) {l : List α} {m : List β} {n : List γ}
+    (h1 : Forall2 R l m) (h2 : Forall2 Q m n) : Forall2 P l n := by
+  induction h1 generalizing n with
+  | nil => cases h2; exact .nil
+  | cons hab _ ih =>
+    cases h2 with
+    | cons hbc hrest => exact .cons (hpq _ _ _ hab hbc) (ih hrest)
+
+theorem RuleReal.of_same {ctx : Ctx} {nod : List (String × String)} {r b rb : Rule} (h : RuleReal ctx nod r b)
+    (hs : SameButId b rb) : RuleReal ctx nod r rb := by
+  unfold SameButId at hs
+  rw [hs] at h
+  exact h
+
+/-- A realised policy, rule by rule and in the order of the target. -/
+theorem Realised.ordered {ctx : Ctx} {nod : List (String × String)} {S : Store} {pid : String} {tr : List Rule}
+    (h : Realised ctx nod S pid tr) :
+    ∃ p L, findPolicy S.policies pid = some p ∧ p.rules.Perm L ∧ Forall2 (RuleReal ctx nod) L tr := by
+  obtain ⟨p, L, B, bR, h1, h2, h3, h4, h5⟩ := h
+  obtain ⟨L', hL', hf⟩ := Forall2_perm_right h3 h4
+  exact ⟨p, L', h1, h2.trans hL', Forall2.comp (fun _ _ _ hr hs => hr.of_same hs) hf h5⟩
+
+theorem findGroup_filter_keep (G : List Group) (q : Group → Bool) (id : String)
+    (hq : ∀ g ∈ G, g.id = id → q g = true) : findGroup (G.filter q) id = findGroup G id := by
+  unfold findGroup
+  induction G with
+  | nil => rfl
+  | cons g rest ih =>
+    simp only [List.filter_cons, List.find?_cons]
+    by_cases he : g.id = id
+    · have : q g = true := hq g List.mem_cons_self he
+      simp [this, he]
+    · have h1 : (g.id == id) = false := by simpa using he
+      by_cases hqg : q g = true
+      · simp only [hqg, if_true, List.find?_cons, h1]
+        exact ih fun g' hg' => hq g' (List.mem_cons_of_mem _ hg')
+      · have hqg' : q g = false := Bool.eq_false_iff.mpr hqg
+        simp only [hqg', Bool.false_eq_true, if_false, h1]
+        exact ih fun g' hg' => hq g' (List.mem_cons_of_mem _ hg')
+
+theorem findService_filter_keep (ss : List Service) (q : Service → Bool) (id : String)
+    (hq : ∀ s ∈ ss, s.id = id → q s = true) : findService (ss.filter q) id = findService ss id := by
+  unfold findService
+  induction ss with
+  | nil => rfl
+  | cons g rest ih =>
+    simp only [List.filter_cons, List.find?_cons]
+    by_cases he : g.id = id
+    · have : q g = true := hq g List.mem_cons_self he
+      simp [this, he]
+    · have h1 : (g.id == id) = false := by simpa using he
+      by_cases hqg : q g = true
+      · simp only [hqg, if_true, List.find?_cons, h1]
+        exact ih fun g' hg' => hq g' (List.mem_cons_of_mem _ hg')
+      · have hqg' : q g = false := Bool.eq_false_iff.mpr hqg
+        simp only [hqg', Bool.false_eq_true, if_false, h1]
+        exact ih fun g' hg' => hq g' (List.mem_cons_of_mem _ hg')
+
+theorem eq_of_gid_eq {G : List Group} (hn : (gids G).Nodup) {g h : Group} (hg : g ∈ G) (hh : h ∈ G)
+    (e : g.id = h.id) : g = h := by
+  have h1 := findGroup_mem_nodup hn hg
+  have h2 := findGroup_mem_nodup hn hh
+  rw [e] at h1
+  rw [h1] at h2
+  exact Option.some.inj h2
+
+
+/-- An entry realising a target entry never names a device group that was not claimed. -/
+theorem epreal_not_unclaimed {diff : Diff} {S : Store} {T : Config} {ctx : Ctx} {st : PSt} {G : List Group}
+    (hcf : CtxFacts diff S T ctx) (hinv : GInv ctx S.groups G st) {pS pB id : String}
+    (h : EPreal ctx st.nod pS pB) (hps : pS = groupPath id) (hin : id ∈ gids S.groups) (hnn : id ∉ st.needed)
+    (hmid : managed id = true)
+    (hdef : ∀ x, groupRef pB = some x → managed x = true → x ∈ gids T.groups) : False := by
+  unfold EPreal at h
+  cases hr : groupRef pB with
+  | none =>
+    simp only [hr] at h
+    rw [← h, hps, groupRef_groupPath] at hr; cases hr
+  | some k =>
+    simp only [hr] at h
+    cases hl : ctx.bmap.lookup k with
+    | some gb =>
+      simp only [hl] at h
+      obtain ⟨n, hn, hp⟩ := h
+      have : n = id := groupPath_inj (hp.symm.trans hps)
+      subst this
+      obtain ⟨gb', _, hb', _, _, hor⟩ := hinv.nod k n hn
+      rcases hor with ⟨h1, _⟩ | h1
+      · exact hnn h1
+      · exact hcf.ok.b_fresh k gb' hb' (h1 ▸ hin)
+    | none =>
+      simp only [hl] at h
+      rw [← h, hps, groupRef_groupPath] at hr
+      have : k = id := (Option.some.inj hr).symm
+      subst this
+      obtain ⟨gb, hgb⟩ := hcf.b_dom k (hdef k (by rw [← h, hps, groupRef_groupPath]) hmid)
+      rw [hgb] at hl; cases hl
+
+/-- Realisation under the final state implies the specification's equivalence of entries. -/
+theorem epequiv_of_epreal {diff : Diff} {S : Store} {T : Config} {ctx : Ctx} {st : PSt} {G G5 : List Group}
+    (hcf : CtxFacts diff S T ctx) (hT : TargetFacts T) (hinv : GInv ctx S.groups G st)
+    (hkeep : ∀ n, (n ∈ st.needed ∨ n ∉ gids S.groups) → findGroup G5 n = findGroup G n)
+    {pS pB : String} (h : EPreal ctx st.nod pS pB) : EPEquiv G5 T.groups pS pB := by
+  unfold EPEquiv targetGroup
+  unfold EPreal at h
+  cases hr : groupRef pB with
+  | none => simp only [hr] at h ⊢; exact h
+  | some x =>
+    simp only [hr] at h ⊢
+    have hnone : ctx.bmap.lookup x = none → pS = pB := fun hl => by simpa [hl] using h
+    cases hm : managed x with
+    | false =>
+      simp only [Bool.false_eq_true, if_false]
+      cases hl : ctx.bmap.lookup x with
+      | none => exact hnone hl
+      | some gb =>
+        obtain ⟨_, _, _, _, _, hmk⟩ := hcf.b_of x gb hl
+        rw [hm] at hmk; cases hmk
+    | true =>
+      simp only [if_true]
+      cases hfl : findGroupLast T.groups x with
+      | none =>
+        simp only
+        cases hl : ctx.bmap.lookup x with
+        | none => exact hnone hl
+        | some gb =>
+          obtain ⟨gt, hgt, hid, _⟩ := hcf.b_of x gb hl
+          exact absurd (hid ▸ mem_gids hgt) (findGroupLast_none.mp hfl)
+      | some gt =>
+        simp only
+        unfold findGroupLast at hfl
+        obtain ⟨hgtm, hgtid⟩ := findGroup_some hfl
+        have hgtm' : gt ∈ T.groups := List.mem_reverse.mp hgtm
+        obtain ⟨gb, hgb⟩ := hcf.b_dom x (hgtid ▸ mem_gids hgtm')
+        simp only [hgb] at h
+        obtain ⟨n, hn, hp⟩ := h
+        obtain ⟨gb', g, hb', hfg, hmem, hor⟩ := hinv.nod x n hn
+        rw [hgb] at hb'
+        have : gb' = gb := (Option.some.inj hb').symm
+        subst this
+        obtain ⟨gt', hgt', hid', hperm, _⟩ := hcf.b_of x gb' hgb
+        have : gt' = gt := eq_of_gid_eq hT.grp_nodup hgt' hgtm' (by rw [hid', hgtid])
+        subst this
+        refine ⟨n, g, hp, ?_, fun y => by rw [hmem y, hperm.mem_iff]⟩
+        rw [hkeep n ?_]; exact hfg
+        rcases hor with ⟨h1, _⟩ | h1
+        · exact Or.inl h1
+        · exact Or.inr (h1 ▸ hcf.ok.b_fresh x gb' hgb)
+
+
+theorem sids_filter_managed {ss : List Service} {id : String} :
+    id ∈ sids (ss.filter (managed ·.id)) ↔ id ∈ sids ss ∧ managed id = true := by
+  unfold sids
+  constructor
+  · intro h
+    obtain ⟨g, hg, e⟩ := List.mem_map.mp h
+    obtain ⟨h1, h2⟩ := List.mem_filter.mp hg
+    exact ⟨List.mem_map.mpr ⟨g, h1, e⟩, e ▸ h2⟩
+  · rintro ⟨h, hm⟩
+    obtain ⟨g, hg, e⟩ := List.mem_map.mp h
+    exact List.mem_map.mpr ⟨g, List.mem_filter.mpr ⟨hg, by rw [e]; exact hm⟩, e⟩
+
+/-- End to end: for every accepted pair and every `diff` returning valid scripts, the whole
+script of `diffConfig` is accepted by the strict manager and the state reached is equivalent to
+the target, with no managed service or group left over. -/
+theorem plan_converges {diff : Diff} (hdiff : ∀ n m eq, validScript n m eq (diff n m eq) = true)
+    {S : Store} {T : Config} (hS : StoreFacts S) (hT : TargetFacts T) (hext : extRefsOK S T = true)
+    (hind : unmanagedIndep S = true) (hab : (plan diff (load S) T).abort = none) :
+    ∃ S', run S (plan diff (load S) T).calls = some S' ∧ Converged S' T ∧ ServicesConverged S' T ∧
+      NoLeftoverGroup S' T := by
+  obtain ⟨ctx, hmk⟩ := plan_abort_none_ctx hab
+  rw [plan_eq hmk] at hab ⊢
+  simp only at hab ⊢
+  have hcf := ctxFacts_of (diff := diff) hS hT hmk
+  obtain ⟨S3, hrun3, hmid⟩ := plan_mid hdiff hS hT hext hmk hab
+  generalize hst2 : (overB ctx (load S) T.policies (overA ctx T (load S).policies {}).1).1 = st2 at *
+  have hinv := hmid.ginv
+  -- every policy of S3 is either realised or outside Netspoc's scope and untouched
+  have hfind3 : ∀ p ∈ S3.policies, findPolicy S3.policies p.id = some p :=
+    fun p hp => findPolicy_mem_nodup hmid.pol_nodup hp
+  have hclass : ∀ p ∈ S3.policies,
+      (∃ pb ∈ T.policies, pb.id = p.id ∧ ∃ L, p.rules.Perm L ∧ Forall2 (RuleReal ctx st2.nod) L pb.rules) ∨
+      (managed p.id = false ∧ p ∈ S.policies) := by
+    intro p hp
+    cases hm : managed p.id with
+    | true =>
+      left
+      have hin := hmid.pol_managed p.id (hasPolicy_mem.mpr (List.mem_map_of_mem (f := (·.id)) hp)) hm
+      obtain ⟨pb, hpb, e⟩ := List.mem_map.mp hin
+      obtain ⟨p', L, h1, h2, h3⟩ := (hmid.pol_real pb hpb).ordered
+      have e' : pb.id = p.id := e
+      rw [e', hfind3 p hp] at h1
+      have : p' = p := (Option.some.inj h1).symm
+      subst this
+      exact ⟨pb, hpb, e', L, h2, h3⟩
+    | false =>
+      right
+      refine ⟨rfl, ?_⟩
+      have := hmid.pol_frame p.id hm
+      rw [hfind3 p hp] at this
+      exact (findPolicy_some this.symm).1
+  have hrule : ∀ p ∈ S3.policies, ∀ r ∈ p.rules,
+      (∃ pb ∈ T.policies, ∃ rb ∈ pb.rules, RuleReal ctx st2.nod r rb) ∨ (managed p.id = false ∧ p ∈ S.policies) := by
+    intro p hp r hr
+    rcases hclass p hp with ⟨pb, hpb, _, L, hperm, hf⟩ | h
+    · obtain ⟨rb, hrb, hreal⟩ := hf.exists_right (hperm.mem_iff.mp hr)
+      exact Or.inl ⟨pb, hpb, rb, hrb, hreal⟩
+    · exact Or.inr h
+  -- services to delete
+  have hmapS : ((load S).services.filter (!(planServices (load S).services T.services).2.contains ·.id)).map
+      (Call.deleteService ·.id) =
+      (((load S).services.filter (!(planServices (load S).services T.services).2.contains ·.id)).map (·.id)).map
+        Call.deleteService := by rw [List.map_map]; rfl
+  have hmapG : ((load S).groups.filter (!st2.needed.contains ·.id)).map (Call.deleteGroup ·.id) =
+      (((load S).groups.filter (!st2.needed.contains ·.id)).map (·.id)).map Call.deleteGroup := by
+    rw [List.map_map]; rfl
+  rw [hmapS, hmapG]
+  generalize hdsS : ((load S).services.filter (!(planServices (load S).services T.services).2.contains ·.id)).map
+      (·.id) = dsS
+  generalize hdsG : ((load S).groups.filter (!st2.needed.contains ·.id)).map (·.id) = dsG
+  have hloadSv : (load S).services = S.services.filter (managed ·.id) := rfl
+  have hloadG : (load S).groups = S.groups.filter (managed ·.id) := rfl
+  have hdsS_mem : ∀ id, id ∈ dsS ↔ id ∈ sids S.services ∧ managed id = true ∧ id ∉ sids T.services := by
+    intro id
+    rw [← hdsS]
+    constructor
+    · intro h
+      obtain ⟨s, hs, e⟩ := List.mem_map.mp h
+      obtain ⟨hs1, hs2⟩ := List.mem_filter.mp hs
+      have hin : id ∈ sids (load S).services := e ▸ List.mem_map_of_mem (f := (·.id)) hs1
+      rw [hloadSv, sids_filter_managed] at hin
+      refine ⟨hin.1, hin.2, ?_⟩
+      intro hT'
+      have hneeded : id ∈ (planServices (load S).services T.services).2 := by
+        rw [hmid.needed_svc]
+        refine ⟨hT', ?_⟩
+        cases hf : findService (load S).services.reverse id with
+        | some _ => rfl
+        | none =>
+          rw [findService_reverse_none, hloadSv, sids_filter_managed] at hf
+          exact absurd hin hf
+      have e' : s.id = id := e
+      rw [e'] at hs2
+      simp only [Bool.not_eq_eq_eq_not, Bool.not_true, List.contains_eq_mem, decide_eq_false_iff_not] at hs2
+      exact hs2 hneeded
+    · rintro ⟨h1, h2, h3⟩
+      have hin : id ∈ sids (load S).services := by rw [hloadSv, sids_filter_managed]; exact ⟨h1, h2⟩
+      obtain ⟨s, hs, e⟩ := List.mem_map.mp hin
+      refine List.mem_map.mpr ⟨s, List.mem_filter.mpr ⟨hs, ?_⟩, e⟩
+      have e' : s.id = id := e
+      rw [e']
+      simp only [Bool.not_eq_eq_eq_not, Bool.not_true, List.contains_eq_mem, decide_eq_false_iff_not]
+      intro hn
+      exact h3 ((hmid.needed_svc id).mp hn).1
+  have hdsS_nodup : dsS.Nodup := by
+    rw [← hdsS]
+    exact (List.Sublist.map _ (List.filter_sublist.trans List.filter_sublist)).nodup hS.svc_nodup
+  have hdsG_mem : ∀ id, id ∈ dsG ↔ id ∈ gids S.groups ∧ managed id = true ∧ id ∉ st2.needed := by
+    intro id
+    rw [← hdsG]
+    constructor
+    · intro h
+      obtain ⟨g, hg, e⟩ := List.mem_map.mp h
+      obtain ⟨hg1, hg2⟩ := List.mem_filter.mp hg
+      have hin : id ∈ gids (load S).groups := e ▸ List.mem_map_of_mem (f := (·.id)) hg1
+      rw [hloadG, gids_filter_managed] at hin
+      refine ⟨hin.1, hin.2, ?_⟩
+      have e' : g.id = id := e
+      rw [e'] at hg2
+      simpa using hg2
+    · rintro ⟨h1, h2, h3⟩
+      have hin : id ∈ gids (load S).groups := by rw [hloadG, gids_filter_managed]; exact ⟨h1, h2⟩
+      obtain ⟨g, hg, e⟩ := List.mem_map.mp hin
+      refine List.mem_map.mpr ⟨g, List.mem_filter.mpr ⟨hg, ?_⟩, e⟩
+      have e' : g.id = id := e
+      rw [e']
+      simpa using h3
+  have hdsG_nodup : dsG.Nodup := by
+    rw [← hdsG]
+    exact (List.Sublist.map _ (List.filter_sublist.trans List.filter_sublist)).nodup hS.grp_nodup
+  -- 4. services are deleted
+  obtain ⟨S4, hrun4, hg4, hp4, hs4⟩ := delServices_spec dsS S3 (by
+    intro id hid
+    obtain ⟨h1, h2, h3⟩ := (hdsS_mem id).mp hid
+    refine ⟨hmid.svc_old id (hasService_iff.mpr h1), ?_⟩
+    rw [Bool.eq_false_iff]
+    intro hused
+    unfold serviceUsed at hused
+    rw [List.any_eq_true] at hused
+    obtain ⟨p, hp, hany⟩ := hused
+    rw [List.any_eq_true] at hany
+    obtain ⟨r, hr, he⟩ := hany
+    have he' : r.service = servicePath id := by simpa using he
+    rcases hrule p hp r hr with ⟨pb, hpb, rb, hrb, hreal⟩ | ⟨hm, hpS⟩
+    · obtain ⟨_, _, d3⟩ := refsDefined_ep ((hT.rules pb hpb).2 rb hrb)
+      exact h3 (d3 id (by rw [← hreal.2.1, he', serviceRef_servicePath]) h2)
+    · obtain ⟨_, _, u3⟩ := unmanagedIndep_ep hind hpS hm hr
+      have := u3 id (by rw [he', serviceRef_servicePath])
+      rw [h2] at this; cases this) hdsS_nodup
+  -- 5. groups are deleted
+  obtain ⟨S5, hrun5, hs5, hp5, hg5⟩ := delGroups_spec dsG S4 (by
+    intro id hid
+    obtain ⟨h1, h2, h3⟩ := (hdsG_mem id).mp hid
+    refine ⟨?_, ?_⟩
+    · rw [hasGroup_iff, hg4]; exact hinv.grow id h1
+    · rw [Bool.eq_false_iff]
+      intro hused
+      unfold groupUsed at hused
+      rw [List.any_eq_true] at hused
+      obtain ⟨p, hp, hany⟩ := hused
+      rw [hp4] at hp
+      rw [List.any_eq_true] at hany
+      obtain ⟨r, hr, he⟩ := hany
+      unfold ruleUsesGroup at he
+      rcases hrule p hp r hr with ⟨pb, hpb, rb, hrb, hreal⟩ | ⟨hm, hpS⟩
+      · obtain ⟨d1, d2, _⟩ := refsDefined_ep ((hT.rules pb hpb).2 rb hrb)
+        rcases Bool.or_eq_true_iff.mp he with e | e
+        · exact epreal_not_unclaimed hcf hinv hreal.2.2.1 (by simpa using e) h1 h3 h2 d1
+        · exact epreal_not_unclaimed hcf hinv hreal.2.2.2 (by simpa using e) h1 h3 h2 d2
+      · obtain ⟨u1, u2, _⟩ := unmanagedIndep_ep hind hpS hm hr
+        rcases Bool.or_eq_true_iff.mp he with e | e
+        · have := u1 id (by rw [show r.src = groupPath id by simpa using e, groupRef_groupPath])
+          rw [h2] at this; cases this
+        · have := u2 id (by rw [show r.dst = groupPath id by simpa using e, groupRef_groupPath])
+          rw [h2] at this; cases this) hdsG_nodup
+  have hpol5 : S5.policies = S3.policies := hp5.trans hp4
+  have hgrp5 : S5.groups = S3.groups.filter (fun g => !dsG.contains g.id) := by rw [hg5, hg4]
+  have hsvc5 : S5.services = S3.services.filter (fun s => !dsS.contains s.id) := by rw [hs5, hs4]
+  have hkeep : ∀ n, (n ∈ st2.needed ∨ n ∉ gids S.groups) → findGroup S5.groups n = findGroup S3.groups n := by
+    intro n hn
+    rw [hgrp5]
+    apply findGroup_filter_keep
+    intro g _ hgid
+    have : n ∉ dsG := by
+      intro hd
+      obtain ⟨h1, _, h3⟩ := (hdsG_mem n).mp hd
+      rcases hn with hn | hn
+      · exact h3 hn
+      · exact hn h1
+    rw [hgid]
+    simpa using this
+  refine ⟨S5, ?_, ⟨?_, ?_⟩, ⟨?_, ?_⟩, ?_⟩
+  · rw [List.append_assoc, run_append hrun3, run_append hrun4]; exact hrun5
+  · -- every target policy is there with equivalent rules
+    intro pb hpb
+    obtain ⟨p, L, h1, h2, h3⟩ := (hmid.pol_real pb hpb).ordered
+    refine ⟨p, L, by rw [hpol5]; exact h1, h2, h3.imp fun r rb hr => ?_⟩
+    exact ⟨hr.1, hr.2.1, epequiv_of_epreal hcf hT hinv hkeep hr.2.2.1, epequiv_of_epreal hcf hT hinv hkeep hr.2.2.2⟩
+  · -- every managed policy left is a target policy
+    intro p hp hm
+    rw [hpol5] at hp
+    have hin := hmid.pol_managed p.id (hasPolicy_mem.mpr (List.mem_map_of_mem (f := (·.id)) hp)) hm
+    obtain ⟨pb, hpb, e⟩ := List.mem_map.mp hin
+    exact ⟨pb, hpb, e⟩
+  · -- target services carry the target's definition
+    intro t ht
+    have hin : t.id ∈ sids T.services := List.mem_map_of_mem (f := (·.id)) ht
+    rw [hsvc5, findService_filter_keep]
+    · exact hmid.svc_target t.id hin
+    · intro s _ hsid
+      have : t.id ∉ dsS := fun hd => ((hdsS_mem t.id).mp hd).2.2 hin
+      rw [hsid]; simpa using this
+  · -- no managed service is left that the target does not define
+    intro s hs hm
+    rw [hsvc5] at hs
+    obtain ⟨hs3, hkeepS⟩ := List.mem_filter.mp hs
+    have hnot : s.id ∉ dsS := by simpa using hkeepS
+    have hhas3 : hasService S3 s.id = true := hasService_iff.mpr (List.mem_map_of_mem (f := (·.id)) hs3)
+    have hinT : s.id ∈ sids T.services := by
+      rcases hmid.svc_new s.id hhas3 with h | h
+      · by_cases hn : s.id ∈ sids T.services
+        · exact hn
+        · exact absurd ((hdsS_mem s.id).mpr ⟨hasService_iff.mp h, hm, hn⟩) hnot
+      · exact h
+    obtain ⟨t, ht, e⟩ := List.mem_map.mp hinT
+    exact ⟨t, ht, e⟩
+  · -- no managed group is left that no target rule uses
+    intro g hg hm
+    rw [hgrp5] at hg
+    obtain ⟨hg3, hkeepG⟩ := List.mem_filter.mp hg
+    have hnot : g.id ∉ dsG := by simpa using hkeepG
+    have hown : ∃ k, st2.nod.lookup k = some g.id := by
+      rcases hinv.ids g.id (mem_gids hg3) with h0 | ⟨k, _, hk, _, _⟩
+      · apply hinv.needed_owned
+        by_cases hn : g.id ∈ st2.needed
+        · exact hn
+        · exact absurd ((hdsG_mem g.id).mpr ⟨h0, hm, hn⟩) hnot
+      · exact ⟨k, hk⟩
+    obtain ⟨k, hk⟩ := hown
+    obtain ⟨pb, hpb, rb, hrb, hrefs⟩ := hmid.keys k g.id hk
+    obtain ⟨p, L, h1, h2, h3⟩ := (hmid.pol_real pb hpb).ordered
+    obtain ⟨r, hrL, hreal⟩ := h3.exists_left hrb
+    have hr : r ∈ p.rules := h2.mem_iff.mpr hrL
+    obtain ⟨hpm, hpid⟩ := findPolicy_some h1
+    refine ⟨p, by rw [hpol5]; exact hpm, ⟨pb, hpb, hpid.symm⟩, r, hr, ?_⟩
+    obtain ⟨gb, _, hgb, _, _, _⟩ := hinv.nod k g.id hk
+    have huse : ∀ pS pB, EPreal ctx st2.nod pS pB → groupRef pB = some k → pS = groupPath g.id := by
+      intro pS pB hep hr'
+      unfold EPreal at hep
+      simp only [hr', hgb] at hep
+      obtain ⟨n, hn, hp⟩ := hep
+      rw [hk] at hn
+      rw [hp, ← Option.some.inj hn]
+    unfold ruleUsesGroup
+    rcases hrefs with h | h
+    · simp [huse _ _ hreal.2.2.1 h]
+    · simp [huse _ _ hreal.2.2.2 h]
 
 end NA.Nsx
